@@ -558,6 +558,14 @@ def llvm_intrinsic(ex, name, ins, d, gargs):
             elif key == 'ctlz': regs[d] = w - a.bit_length()
             else: regs[d] = (a & -a).bit_length() - 1 if a else w
         return f
+    if key == 'load' and 'relative' in name:
+        gp, go = gargs
+        def f(st, regs):
+            p = gp(regs); o = go(regs)
+            v = st.mem.load((p + o) & ops.mask(64), 4)
+            if not isinstance(v, int): v = ex.concretize(st, v, 32, 'load.relative')
+            regs[d] = (p + ops.sgn(v, 32)) & ops.mask(64)
+        return f
     if key == 'expect':
         ga = gargs[0]
         def f(st, regs): regs[d] = ga(regs)
@@ -874,3 +882,44 @@ def b_atof(ex, st, args, ins):
     if len(args) > 1 and isinstance(args[1], int) and args[1]:
         st.mem.store(args[1], 8, p + (m.end() if m else 0))
     return v
+
+@builtin('vsscanf', '__isoc99_vsscanf', '__isoc23_vsscanf', 'sscanf', '__isoc99_sscanf', '__isoc23_sscanf')
+def b_vsscanf(ex, st, args, ins):
+    """subset used by libnstd: literal characters, %u %d %x (optionally with l/ll); input digits may be symbolic"""
+    name = ins.args[0].v if hasattr(ins.args[0], 'v') else ''
+    src = _ptr(ex, st, args[0]); fmt = _fmt_bytes(ex, st, args[1])
+    outs = _valist(ex, st, args[2]) if 'vsscanf' in str(name) else args[2:]
+    i = 0; oi = 0; p = src; assigned = 0
+    while i < len(fmt):
+        ch = fmt[i]
+        if ch == 0x25:
+            i += 1
+            length = ''
+            while i < len(fmt) and chr(fmt[i]) in 'hlz': length += chr(fmt[i]); i += 1
+            conv = chr(fmt[i]); i += 1
+            w = 64 if length in ('l', 'll', 'z') else 32
+            if conv not in 'udx': raise _Unsupported('scanf conversion %' + conv)
+            q = _skip_space(ex, st, p)
+            # at least one digit required
+            b = st.mem.load(q, 1)
+            if conv == 'x':
+                if not isinstance(b, int): b = ex.concretize(st, b, 8, 'scanf hex digit')
+                ok = chr(b) in '0123456789abcdefABCDEF'
+            elif isinstance(b, int):
+                ok = 48 <= b <= 57 or (b in (0x2d, 0x2b) and conv == 'd')
+                if not ok and b in (0x2d, 0x2b): ok = True   # strtoul accepts a sign too
+            else:
+                ok = bool(ex.concretize_bool(st, z3.And(z3.UGE(b, 48), z3.ULE(b, 57))))
+            if not ok: return assigned
+            v, end = _parse_int(ex, st, q, w, conv == 'd', 16 if conv == 'x' else 10)
+            if end == q: return assigned
+            dst = outs[oi]; oi += 1
+            st.mem.store(dst, w // 8, v if isinstance(v, int) else to_bv(v, w))
+            assigned += 1; p = end
+        elif ch in (32, 9, 10):
+            p = _skip_space(ex, st, p); i += 1
+        else:
+            b = st.mem.load(p, 1)
+            if not _eq_byte(ex, st, b, ch): return assigned if assigned else (ops.mask(32) if _is_zero(ex, st, b) else 0)
+            p += 1; i += 1
+    return assigned
